@@ -1,58 +1,73 @@
-"""C17 crash runner.  Started with sys.executable by vlib.c17_prog.CrashServer (PYTHONPATH inherited).
+"""C17 crash runner: one process per request, started with sys.executable by vlib.c17_prog.CrashServer (PYTHONPATH
+inherited; the client starts the next process while the current one works, so the import time is hidden).
 
-Reads one JSON request per line on stdin: {"program": ..., "path": database file (a fresh copy of the template), "k": n}.
-For each request it forks; the forked process binds Pony to the file through the fault layer with the plan
-"os._exit(137) before call k", runs the program and therefore dies in the middle of it without any cleanup.
-The parent waits for it and answers {"exit": code} on stdout (137 = died at the requested call, 3 = program finished
-without reaching call k, 4 = program raised before reaching call k).
+Prints "ready", then reads ONE JSON request on stdin:
+    {"program": ..., "template": template database, "dir": scratch directory, "ks": [k, ...]}
+For every k the process copies the template to <dir>/crash_<k>.sqlite, binds a fresh Pony Database to it through the
+fault layer and runs the program in a thread of its own whose plan is "stop for ever right before call k" (no unwinding:
+none of Pony's cleanup code runs, the connection stays exactly as it was, with its transaction open).  When every run
+is frozen at its call the process writes <dir>/status.json and kills itself with os._exit(137): every one of those
+connections dies with the process, mid-transaction, the way a crashed program leaves them.  The runs use separate
+Database objects and separate files, so they do not influence each other.
 """
-import os, sys, json
+import os, sys, json, shutil, threading
 
 HOME = os.environ.get('VERIF_HOME') or os.path.dirname(os.path.dirname(os.path.abspath(__file__)))
 if HOME not in sys.path:
     sys.path.insert(0, HOME)
 
 
-def child(req):
-    from vlib import c17_prog, faultdb
-    from pony.orm import Database
-    rec = faultdb.Recorder([{'at': req['k'], 'when': 'before', 'exc': 'crash'}])
-    db = Database()
-    E = c17_prog.define_entities(db)
-    db.bind('sqlite', req['path'], create_db=False, factory=faultdb.make_factory(rec), timeout=0)
-    db.generate_mapping(check_tables=False, create_tables=False)
-    rec.start()
+def crash_path(d, k):
+    return os.path.join(d, 'crash_%d.sqlite' % k)
 
-    class Env(object):
-        pass
-    env = Env()
-    env.db, env.E, env.rec, env.path = db, E, rec, req['path']
-    try:
-        c17_prog.Interp(env, req['program']).run()
-    except BaseException:
-        os._exit(4)
-    os._exit(3)
+
+def one_run(req, k, status):
+    from vlib import c17_prog
+    path = crash_path(req['dir'], k)
+    progress = threading.Event()
+
+    def target():
+        try:
+            env = c17_prog.Env(req['template'], path, [{'at': k, 'when': 'before', 'exc': 'park'}], parked=progress)
+            c17_prog.Interp(env, req['program']).run()
+            status[str(k)] = 'finished'          # never reached call k
+        except BaseException as e:
+            status[str(k)] = 'raised %s: %s' % (type(e).__name__, str(e)[:200])
+        finally:
+            progress.set()
+    status[str(k)] = 'parked'
+    t = threading.Thread(target=target, name='crash-%d' % k)
+    t.daemon = True
+    t.start()
+    progress.wait()       # set when the run is frozen at call k (or, unexpectedly, when it ended)
+
+
+def child(req):
+    import gc
+    gc.disable()      # frozen runs keep all their objects alive; collecting over them again and again is wasted time
+    threading.stack_size(512 * 1024)
+    status = {}
+    for k in req['ks']:
+        one_run(req, k, status)
+    tmp = os.path.join(req['dir'], 'status.json.tmp')
+    with open(tmp, 'w') as f:
+        json.dump(status, f)
+        f.flush()
+        os.fsync(f.fileno())
+    os.rename(tmp, os.path.join(req['dir'], 'status.json'))
+    os._exit(137)
 
 
 def main():
-    import pony.orm                     # imported once; every forked child starts from here
+    import pony.orm                     # imported before the request arrives (the client starts this process early)
+    import pony.orm.dbproviders.sqlite  # noqa
     from vlib import c17_prog, faultdb  # noqa
-    for line in sys.stdin:
-        line = line.strip()
-        if not line:
-            continue
-        req = json.loads(line)
-        sys.stdout.flush()
-        pid = os.fork()
-        if pid == 0:
-            try:
-                child(req)
-            finally:
-                os._exit(5)
-        _, status = os.waitpid(pid, 0)
-        code = os.WEXITSTATUS(status) if os.WIFEXITED(status) else -os.WTERMSIG(status)
-        sys.stdout.write(json.dumps({'exit': code}) + '\n')
-        sys.stdout.flush()
+    sys.stdout.write('ready\n')
+    sys.stdout.flush()
+    line = sys.stdin.readline()
+    if not line.strip():
+        os._exit(0)                     # the client did not need this process
+    child(json.loads(line))
 
 
 if __name__ == '__main__':
